@@ -53,8 +53,8 @@ func (t *ecmaTime) goTime() Time.Time {
 		t.day,
 		t.hour,
 		t.minute,
-		t.second,
-		t.millisecond*(100*100*100),
+		t.second+t.millisecond/1000, // as nanoseconds the millisecond field overflows an int64 beyond 2^63/10^6 ms
+		t.millisecond%1000*(100*100*100),
 		t.location,
 	)
 }
@@ -235,7 +235,9 @@ func newDateTime(argumentList []Value, location *Time.Location) float64 {
 			year = 1900 + integer
 		}
 
-		time := Time.Date(int(year), dateToGoMonth(int(month)), int(day), int(hour), int(minute), int(second), int(millisecond)*1000*1000, location)
+		// Whole seconds are carried out of the millisecond field: as nanoseconds it overflows an int64 beyond 2^63/10^6 ms.
+		milli := int(millisecond)
+		time := Time.Date(int(year), dateToGoMonth(int(month)), int(day), int(hour), int(minute), int(second)+milli/1000, milli%1000*1000*1000, location)
 		return timeToEpoch(time)
 	}
 }
